@@ -103,6 +103,11 @@ def run(repo, rep, tier):
     units.check_functions(repo, rep, fam)
     guards.check_functions(repo, rep, fam)
     effects.check_functions(repo, rep, fam)
+    # second premise: the epochs this property quantifies over are days on the JDE axis; Epoch(JDE), Epoch + days and Epoch(y, m, d) all pass through the
+    # date <-> JDE conversions, so "longitude only ever increases, at a Keplerian daily rate" presupposes that consecutive civil days are 1.0 apart
+    # and read back as themselves (R-CYCLE of C01, quick tier)
+    from .c01 import cycle_roundtrip
+    cycle_roundtrip(repo, rep, "quick")
     # premise of the evaluator: Angle / Epoch operators mean what their names say and leave their operands alone
     from ..premises import operator_semantics
     operator_semantics(repo, rep)
